@@ -101,7 +101,7 @@ func init() {
 func init() {
 	addMutants(
 		// D80, D81 reverted
-		mutant{Name: "method-value-keeps-the-receiver-expression", Prop: "C05", File: "interp/run.go", Old: "\t\tif recv != nil {\n\t\t\tr := recv(f)\n\t\t\tfor r.Kind() == reflect.Ptr {\n\t\t\t\tr = r.Elem()\n\t\t\t}\n\t\t\tc := reflect.New(r.Type()).Elem()\n\t\t\tc.Set(r)\n\t\t\tnod.recv = &receiver{val: c}\n\t\t}\n", New: "\t\t_ = recv\n", Rule: "R05.11", Key: "getMethod/closure#1/receiver-bound-at-evaluation"},
+		mutant{Name: "method-value-keeps-the-receiver-expression", Prop: "C05", File: "interp/run.go", Old: "\t\tif recv != nil {\n\t\t\tr := recv(f)\n\t\t\tif !ptrRecv {\n\t\t\t\tfor r.Kind() == reflect.Ptr {\n\t\t\t\t\tr = r.Elem()\n\t\t\t\t}\n\t\t\t}\n\t\t\tif !ptrRecv || r.Kind() == reflect.Ptr {\n\t\t\t\tc := reflect.New(r.Type()).Elem()\n\t\t\t\tc.Set(r)\n\t\t\t\tr = c\n\t\t\t}\n\t\t\tnod.recv = &receiver{val: r}\n\t\t}\n", New: "\t\t_, _ = recv, ptrRecv\n", Rule: "R05.11", Key: "getMethod/closure#1/receiver-bound-at-evaluation"},
 		mutant{Name: "deferred-function-value-read-when-it-runs", Prop: "C06", File: "interp/run.go", Old: "\t\t\t} else {\n\t\t\t\tval[0] = fixArg(value(f))\n\t\t\t}\n", New: "\t\t\t} else {\n\t\t\t\tval[0] = value(f)\n\t\t\t}\n", Rule: "R06.16", Key: "call/deferred-record"},
 	)
 }
@@ -244,5 +244,30 @@ func init() {
 		// round-6 seed C10-4 (deferred calls of a cancelled frame dropped), for C06 and C10
 		mutant{Name: "deferred-calls-of-a-cancelled-frame-dropped", Prop: "C06", File: "interp/run.go", Old: "\t\tdeferred := f.deferred\n\t\tf.mutex.Unlock()\n", New: "\t\tdeferred := f.deferred\n\t\tif f.runid() != n.interp.runid() {\n\t\t\tdeferred = nil\n\t\t}\n\t\tf.mutex.Unlock()\n", Rule: "R06.2", Key: "runCfg/consumer/list-not-replaced"},
 		mutant{Name: "deferred-calls-of-a-cancelled-frame-dropped-c10", Prop: "C10", File: "interp/run.go", Old: "\t\tdeferred := f.deferred\n\t\tf.mutex.Unlock()\n", New: "\t\tdeferred := f.deferred\n\t\tif f.runid() != n.interp.runid() {\n\t\t\tdeferred = nil\n\t\t}\n\t\tf.mutex.Unlock()\n", Rule: "R10.6", Key: "runCfg/consumer/list-not-replaced"},
+	)
+}
+
+func init() {
+	addMutants(
+		// D90 reverted
+		mutant{Name: "function-literal-slot-restored-when-the-call-returns", Prop: "C08", File: "interp/run.go", Old: "\t\t\trunCfg(n.child[3].start, fr2, n, n)\n\n\t\t\treturn fr2.data[:numRet]\n", New: "\t\t\trunCfg(n.child[3].start, fr2, n, n)\n\n\t\t\tf.mutex.Lock()\n\t\t\tgetFrame(f, l).data[i] = reflect.Value{}\n\t\t\tf.mutex.Unlock()\n\n\t\t\treturn fr2.data[:numRet]\n", Rule: "R08.11", Key: "getFunc/callback#1/writes-only-its-own-frame"},
+	)
+}
+
+func init() {
+	addMutants(
+		// D91, D92 reverted
+		mutant{Name: "pointer-receiver-of-a-method-value-read-at-the-call", Prop: "C05", File: "interp/run.go", Old: "\tif m := n.val.(*node); n.recv != nil && n.recv.node != nil && m.kind == funcDecl {\n\t\trecv = genValueRecv(n)\n\t\tptrRecv = hasPtrRecv(m)\n\t}\n\n\tn.exec = func(f *frame) bltn {\n\t\tnod := *(n.val.(*node))", New: "\tif m := n.val.(*node); n.recv != nil && n.recv.node != nil && m.kind == funcDecl && !hasPtrRecv(m) {\n\t\trecv = genValueRecv(n)\n\t\tptrRecv = hasPtrRecv(m)\n\t}\n\n\tn.exec = func(f *frame) bltn {\n\t\tnod := *(n.val.(*node))", Rule: "R05.11", Key: "getMethod/receiver-generator#1/for-pointer-receivers-too"},
+		mutant{Name: "interface-conversion-wraps-the-variable", Prop: "C04", File: "interp/value.go", Old: "\t\treturn reflect.ValueOf(valueInterface{nod, fixArg(v)})\n", New: "\t\treturn reflect.ValueOf(valueInterface{nod, v})\n", Rule: "R04.20", Key: "genValueInterface/interface-wrapper#1/value-copied"},
+		mutant{Name: "interface-conversion-wraps-the-variable-c05", Prop: "C05", File: "interp/value.go", Old: "\t\treturn reflect.ValueOf(valueInterface{nod, fixArg(v)})\n", New: "\t\treturn reflect.ValueOf(valueInterface{nod, v})\n", Rule: "R05.15", Key: "genValueInterface/interface-wrapper#1/value-copied"},
+		mutant{Name: "interface-conversion-wraps-the-variable-c08", Prop: "C08", File: "interp/value.go", Old: "\t\treturn reflect.ValueOf(valueInterface{nod, fixArg(v)})\n", New: "\t\treturn reflect.ValueOf(valueInterface{nod, v})\n", Rule: "R08.13", Key: "genValueInterface/interface-wrapper#1/value-copied"},
+		mutant{Name: "benign-interface-conversion-copies-inline", Prop: "C04", File: "interp/value.go", Old: "\t\treturn reflect.ValueOf(valueInterface{nod, fixArg(v)})\n", New: "\t\tc := reflect.New(v.Type()).Elem()\n\t\tc.Set(v)\n\t\treturn reflect.ValueOf(valueInterface{nod, c})\n", Benign: true},
+	)
+}
+
+func init() {
+	addMutants(
+		// D93 reverted
+		mutant{Name: "array-literal-always-stored-in-place", Prop: "C04", File: "interp/run.go", Old: "func arrayLit(n *node) {\n\tstore := literalDest(n)\n", New: "func arrayLit(n *node) {\n\tvalue := valueGenerator(n, n.findex)\n\tstore := func(f *frame, v reflect.Value) { value(f).Set(v) }\n", Rule: "R04.19", Key: "arrayLit/closure#1/can-give-the-literal-a-new-variable"},
 	)
 }
